@@ -1548,6 +1548,58 @@ def expand_tables(model):
     return n
 
 
+# ---------------------------------------------------------------------------------------------------
+def _sink_body(stmts, budget):
+    """Tail duplication of `return <name>` into the arms of the branching statement that precedes it, when that
+    statement assigns the name: `if c: r = A / else: r = B` + `return r`  ->  `if c: r = A; return r / else: r = B;
+    return r` (pure code motion: every path executes the same statements in the same order).  Single-exit code then
+    has one return per way of computing the result, which is the shape the per-return rules judge."""
+    changed = False
+    for st in stmts:
+        if isinstance(st, (ast.FunctionDef, ast.AsyncFunctionDef, ast.ClassDef)):
+            continue
+        for fld in ("body", "orelse", "finalbody"):
+            sub = getattr(st, fld, None)
+            if isinstance(sub, list) and sub and isinstance(sub[0], ast.stmt):
+                changed |= _sink_body(sub, budget)
+        for h in getattr(st, "handlers", []) or []:
+            changed |= _sink_body(h.body, budget)
+    while len(stmts) >= 2 and budget[0] > 0 and isinstance(stmts[-1], ast.Return) and isinstance(stmts[-1].value, ast.Name):
+        ret, S = stmts[-1], stmts[-2]
+        name = ret.value.id
+        if not isinstance(S, (ast.If, ast.Try)) or (isinstance(S, ast.Try) and S.finalbody):
+            break
+        if not any(isinstance(x, ast.Name) and x.id == name and isinstance(x.ctx, ast.Store) for x in ast.walk(S)):
+            break
+        budget[0] -= 1
+        stmts.pop()
+        arms = []
+        if isinstance(S, ast.If):
+            arms = [S.body, S.orelse]
+        else:
+            arms = [S.orelse if S.orelse else S.body] + [h.body for h in S.handlers]
+        for arm in arms:
+            if not _terminates(arm):
+                arm.append(_clone(ret))
+        changed = True
+        for arm in arms:
+            _sink_body(arm, budget)
+    return changed
+
+
+def sink_returns(model):
+    n = 0
+    for q, fn in list(model.funcs.items()):
+        if fn.path.endswith("posc.py"):
+            continue
+        if _sink_body(fn.node.body, [24]):
+            ast.fix_missing_locations(fn.node)
+            relink(fn.node)
+            n += 1
+    model.returns_sunk = n
+    return n
+
+
 def desugar(model):
     """`return a if c else b` and `x = a if c else b` become if/else statements, so that every rule sees
     the branch structure (conditions as dominating facts, one return per alternative)."""
